@@ -387,6 +387,52 @@ Proof.
   rewrite dot_cons. apply Z.divide_add_r; [apply Z.divide_mul_r; assumption | apply IH; assumption].
 Qed.
 
+(* the translated source computes what the hand model computes, for every view and backing memmap *)
+Lemma reduce_memmap_eq_hand : forall a m, reduce_memmap a m = reduce_memmap_hand a m.
+Proof.
+  intros a m. unfold reduce_memmap, reduce_memmap_hand, reduce_args.
+  destruct (byte_bounds a) as [a_start a_end].
+  destruct (m_f m), (v_f a), (v_c a); cbn [bind orb andb negb Z.eqb]; try reflexivity;
+    unfold py_floordiv; destruct (v_isz a =? 0); reflexivity.
+Qed.
+
+(* numpy's relaxed contiguity gives the linear position of every in-bounds index *)
+Lemma dot_c_contig : forall shape strides idx isz, is_c_contig shape strides isz = true ->
+  in_boundsZ shape idx -> dot idx strides = isz * lin_c shape idx.
+Proof.
+  induction shape as [|n shape IH]; intros [|st strides] [|i idx] isz Hc Hb; cbn in Hc, Hb; try discriminate; try contradiction.
+  - unfold dot. cbn. lia.
+  - apply andb_true_iff in Hc. destruct Hc as [H1 H2]. destruct Hb as [Hi Hb].
+    cbn [lin_c]. rewrite dot_cons, (IH strides idx isz H2 Hb).
+    apply orb_true_iff in H1. destruct H1 as [H1 | H1]; apply Z.eqb_eq in H1.
+    + assert (i = 0) by lia. subst i. lia.
+    + subst st. lia.
+Qed.
+
+Lemma dot_f_contig : forall shape strides idx acc, is_f_contig_from acc shape strides = true ->
+  in_boundsZ shape idx -> dot idx strides = acc * lin_f shape idx.
+Proof.
+  induction shape as [|n shape IH]; intros [|st strides] [|i idx] acc Hc Hb; cbn in Hc, Hb; try discriminate; try contradiction.
+  - unfold dot. cbn. lia.
+  - apply andb_true_iff in Hc. destruct Hc as [H1 H2]. destruct Hb as [Hi Hb].
+    cbn [lin_f]. rewrite dot_cons, (IH strides idx (acc * n) H2 Hb).
+    apply orb_true_iff in H1. destruct H1 as [H1 | H1]; apply Z.eqb_eq in H1.
+    + assert (i = 0) by lia. subst i n. lia.
+    + subst st. lia.
+Qed.
+
+(* the canonical strides are contiguous in numpy's sense *)
+Lemma c_strides_contig : forall shape isz, is_c_contig shape (c_strides shape isz) isz = true.
+Proof.
+  induction shape as [|n shape IH]; intros isz; [reflexivity|]. cbn [c_strides is_c_contig].
+  rewrite Z.eqb_refl, orb_true_r, IH. reflexivity.
+Qed.
+Lemma f_strides_contig : forall shape acc, is_f_contig_from acc shape (f_strides_from acc shape) = true.
+Proof.
+  induction shape as [|n shape IH]; intros acc; [reflexivity|]. cbn [f_strides_from is_f_contig_from].
+  rewrite Z.eqb_refl, orb_true_r, IH. reflexivity.
+Qed.
+
 (* non-contiguous view, no negative stride: every element is rebuilt at its own file offset; when the
    strides are multiples of the item size the rebuilt base buffer contains every element *)
 Lemma memmap_strided : forall a m r idx,
@@ -397,7 +443,7 @@ Lemma memmap_strided : forall a m r idx,
      fst (recon_range a r) <= recon_elem_off a r idx /\
      recon_elem_off a r idx + v_isz a <= snd (recon_range a r)).
 Proof.
-  intros a m r idx Hc Hf Hisz Hst Hr Hb. unfold reduce_memmap in Hr.
+  intros a m r idx Hc Hf Hisz Hst Hr Hb. rewrite reduce_memmap_eq_hand in Hr. unfold reduce_memmap_hand in Hr.
   destruct (byte_bounds_nonneg a Hst) as [Hlo Hhi]. specialize (Hhi Hc).
   destruct (byte_bounds a) as [a_start a_end]. cbn [fst snd] in Hlo, Hhi. rewrite Hf, Hc in Hr. cbn [orb] in Hr.
   unfold py_floordiv in Hr. destruct (v_isz a =? 0) eqn:E; [apply Z.eqb_eq in E; lia|]. cbn [bind] in Hr.
@@ -410,30 +456,77 @@ Proof.
   destruct Hd as [q Hq]. rewrite Hq, Z.div_mul by lia. nia.
 Qed.
 
-(* contiguous view (C- or F-contiguous, whatever the order of the backing memmap): rebuilt with the
-   memory order of the view, every element at its own file offset *)
+(* contiguous view in numpy's (relaxed) sense, C or F, whatever the order of the backing memmap: rebuilt with
+   the memory order of the view, every element at its own file offset *)
 Lemma memmap_contiguous : forall a m r idx, 0 <= v_isz a -> in_boundsZ (v_shape a) idx ->
   reduce_memmap a m = Ok r ->
-  (v_c a = true /\ v_strides a = c_strides (v_shape a) (v_isz a)) \/
-  (v_c a = false /\ v_f a = true /\ v_strides a = f_strides (v_shape a) (v_isz a)
+  (v_c a = true /\ is_c_contig (v_shape a) (v_strides a) (v_isz a) = true) \/
+  (v_c a = false /\ v_f a = true /\ is_f_contig_from (v_isz a) (v_shape a) (v_strides a) = true
    /\ Forall (fun st => 0 <= st) (v_strides a)) ->
   recon_elem_off a r idx = orig_elem_off a m idx /\
   recon_range a r = (orig_elem_off a m (map (fun _ => 0) idx),
                      orig_elem_off a m (map (fun _ => 0) idx) + prodZ (v_shape a) * v_isz a).
 Proof.
-  intros a m r idx Hisz Hb Hr Hcase. pose proof (in_boundsZ_length _ _ Hb) as Hl. unfold reduce_memmap in Hr.
+  intros a m r idx Hisz Hb Hr Hcase. rewrite reduce_memmap_eq_hand in Hr. unfold reduce_memmap_hand in Hr.
   assert (Hz : forall st, dot (map (fun _ : Z => 0) idx) st = 0).
   { clear. induction idx as [|i idx IH]; intros [|x st]; try (unfold dot; reflexivity).
     cbn [map]. rewrite dot_cons, IH. lia. }
   destruct Hcase as [[Hc Hs] | [Hc [Hf [Hs Hnn]]]].
   - unfold byte_bounds in Hr. rewrite Hc in Hr. rewrite orb_true_r, andb_false_r in Hr. injection Hr as <-.
-    unfold recon_elem_off, orig_elem_off, recon_range. rewrite Hz, Hs, dot_c_strides by exact Hl.
+    unfold recon_elem_off, orig_elem_off, recon_range. rewrite Hz, (dot_c_contig _ _ _ _ Hs Hb).
     split; [lia | f_equal; lia].
   - destruct (byte_bounds_nonneg a Hnn) as [Hlo _]. destruct (byte_bounds a) as [a_start a_end].
     cbn [fst] in Hlo. rewrite Hf, Hc in Hr. cbn [orb andb negb] in Hr. injection Hr as <-.
-    unfold recon_elem_off, orig_elem_off, recon_range. rewrite Hz, Hs. unfold f_strides.
-    rewrite dot_f_strides_from by exact Hl. split; [lia | f_equal; lia].
+    unfold recon_elem_off, orig_elem_off, recon_range. rewrite Hz, (dot_f_contig _ _ _ _ Hs Hb).
+    split; [lia | f_equal; lia].
 Qed.
+
+(* F28, the rule before the fix: re-mapping a contiguous view with the order of the backing memmap addresses
+   other bytes as soon as the two orders differ (m.T of a C-ordered memmap) *)
+Definition transposed_view : view := {| v_ptr := 1000; v_shape := [3; 4]; v_strides := [8; 24]; v_isz := 8; v_c := false; v_f := true |}.
+Definition c_backing : backing := {| m_start := 1000; m_offset := 0; m_f := false |}.
+Lemma old_order_rule_refuted : exists r,
+  reduce_memmap_old transposed_view c_backing = Ok r /\ in_boundsZ (v_shape transposed_view) [0; 1] /\
+  v_c transposed_view = np_c_contig (v_shape transposed_view) (v_strides transposed_view) (v_isz transposed_view) /\
+  v_f transposed_view = np_f_contig (v_shape transposed_view) (v_strides transposed_view) (v_isz transposed_view) /\
+  recon_elem_off transposed_view r [0; 1] <> orig_elem_off transposed_view c_backing [0; 1].
+Proof. eexists. split; [vm_compute; reflexivity|]. vm_compute. repeat split; discriminate. Qed.
+
+(* the auto-memmapping threshold: an array without a backing memmap is dumped to a temporary memmap iff it has
+   no object dtype, a threshold is set and nbytes is STRICTLY above it; a memmap-backed array is always re-mapped *)
+Lemma forward_route_spec : forall has_backing hasobject max_nbytes nbytes,
+  exists rt, forward_route has_backing hasobject max_nbytes nbytes = Ok rt /\
+  (rt = RReduceBacked <-> has_backing = true) /\
+  (rt = RDumpTemp <-> has_backing = false /\ hasobject = false /\ exists t, max_nbytes = Some t /\ t < nbytes).
+Proof.
+  intros hb ho mx nb. unfold forward_route, forward_memmaps. destruct hb.
+  - eexists. split; [reflexivity|]. split; split; intros H; auto; try discriminate. destruct H as [H _]. discriminate.
+  - cbn [bind]. destruct ho; cbn [negb andb].
+    + eexists. split; [reflexivity|]. split; split; intros H; try discriminate.
+      destruct H as [_ [H _]]. discriminate.
+    + destruct mx as [t|].
+      * destruct (nb >? t) eqn:E; eexists; (split; [reflexivity|]); split; split; intros H; try discriminate.
+        -- repeat split. exists t. split; [reflexivity|]. apply Z.gtb_lt in E. lia.
+        -- reflexivity.
+        -- destruct H as [_ [_ [t' [Ht Hlt]]]]. injection Ht as <-. apply Z.gtb_lt in Hlt. rewrite Hlt in E. discriminate.
+      * eexists. split; [reflexivity|]. split; split; intros H; try discriminate.
+        destruct H as [_ [_ [t' [Ht _]]]]. discriminate.
+Qed.
+
+(* array types: what comes back for each type that went in *)
+Lemma loaded_type_spec : forall via_mmap,
+  loaded_type TNdarray numpy_has_array_prepare via_mmap = (if via_mmap then TMemmap else TNdarray) /\
+  loaded_type TMemmap numpy_has_array_prepare via_mmap = (if via_mmap then TMemmap else TNdarray) /\
+  (forall t, loaded_type t true via_mmap = match t with TMatrix | TSubclass => t | _ => if via_mmap then TMemmap else TNdarray end) /\
+  save_intercepts TSubclass = false /\ payload_kind true = PPickle2 /\ payload_kind false = PRaw /\
+  (forall u, reads_via_mmap u false = false).
+Proof.
+  intros v. repeat match goal with |- _ /\ _ => split end; try reflexivity; intros []; reflexivity.
+Qed.
+
+(* F29: with the numpy in use ndarray has no __array_prepare__, so a matrix comes back as a plain ndarray *)
+Lemma matrix_subclass_refuted : loaded_type TMatrix numpy_has_array_prepare false <> TMatrix.
+Proof. vm_compute. discriminate. Qed.
 
 (* ================================================================== refuted on the unchanged tree *)
 
@@ -459,13 +552,10 @@ Lemma buffer_len_floor_refuted : exists r,
   snd (recon_range field_view r) < recon_elem_off field_view r [9] + v_isz field_view.
 Proof. eexists. split; [vm_compute; reflexivity|]. vm_compute. repeat split; discriminate. Qed.
 
-(* F28 (fixed): m = C-ordered memmap of shape (4,3) int64, a = m.T (F-contiguous, shape (3,4), strides (8,24)):
-   the view's order 'F' is sent, element (0,1) is rebuilt at byte 24 *)
-Definition transposed_view : view := {| v_ptr := 1000; v_shape := [3; 4]; v_strides := [8; 24]; v_isz := 8; v_c := false; v_f := true |}.
-Definition c_backing : backing := {| m_start := 1000; m_offset := 0; m_f := false |}.
+(* F28 (fixed): the current code sends the view's order 'F' for m.T; element (0,1) is rebuilt at byte 24 *)
 Lemma transposed_example :
   reduce_memmap transposed_view c_backing = Ok (0, OrdF, None, None) /\
-  v_strides transposed_view = f_strides (v_shape transposed_view) (v_isz transposed_view) /\
+  is_f_contig_from (v_isz transposed_view) (v_shape transposed_view) (v_strides transposed_view) = true /\
   recon_elem_off transposed_view (0, OrdF, None, None) [0; 1] = 24 /\
   orig_elem_off transposed_view c_backing [0; 1] = 24.
 Proof. repeat match goal with |- _ /\ _ => split end; reflexivity. Qed.
